@@ -324,6 +324,50 @@ def rule_zero_max(model, rep):
         rep.hold(R, site(UH, "HasRounds"), "upper limit and default are compared with `is not None`")
 
 
+def rule_falsy_option(model, rep):
+    """using(): an option is `given` when it is not None.  A truthiness test around the statements that store / pin the option drops
+    the legal falsy values (cisco_type7's salt 0, a cost of 0, an empty ident list ...) without a word"""
+    R = "C09.i-zero-is-a-value"
+    n = 0
+    for un, unit in model.units.items():
+        if not un.startswith(("passlib.", "libpass.")):
+            continue
+        for q, fn in unit.functions():
+            if q.split(".")[-1] != "using":
+                continue
+            ps = {a.arg for a in fn.args.args + fn.args.kwonlyargs} - {"cls", "self"}
+            for node in walk_no_nested(fn):
+                if not isinstance(node, ast.If):
+                    continue
+                t = node.test
+                kind = p = None
+                if isinstance(t, ast.Name) and t.id in ps:
+                    kind, p, region = "truthy", t.id, node.body
+                elif isinstance(t, ast.UnaryOp) and isinstance(t.op, ast.Not) and isinstance(t.operand, ast.Name) and t.operand.id in ps:
+                    kind, p, region = "truthy", t.operand.id, node.orelse
+                elif isinstance(t, ast.Compare) and isinstance(t.left, ast.Name) and t.left.id in ps and len(t.ops) == 1 and ast.unparse(t.comparators[0]) == "None":
+                    kind, p = "none", t.left.id
+                    region = node.body if isinstance(t.ops[0], ast.IsNot) else node.orelse
+                if kind is None:
+                    continue
+                # does the guarded region store / pin the option?
+                stores = False
+                for st in region:
+                    for x in ast.walk(st):
+                        if isinstance(x, ast.Assign) and any(isinstance(tg, ast.Attribute) for tg in x.targets) and any(isinstance(y, ast.Name) and y.id == p for y in ast.walk(x.value)):
+                            stores = True
+                        if isinstance(x, ast.Assign) and any(isinstance(tg, ast.Name) and tg.id == p for tg in x.targets) and isinstance(x.value, ast.Call) and "_norm_" in ast.unparse(x.value.func):
+                            stores = True
+                if not stores:
+                    continue
+                n += 1
+                rep.check(kind == "none", R, site(un, q) + f" {p}", f"if {ast.unparse(t)}:  # guards the statements that store `{p}`",
+                          f"the option `{p}` is stored whenever it was given (`is not None`), whatever its value",
+                          witness="cisco_type7.using(salt=0).hash('password') starts with a random offset instead of '00': the legal value 0 is treated as not given")
+    if n < 8:
+        rep.undecided(R, "<instance-count>", f"only {n} guarded option stores found in using() methods, expected at least 8")
+
+
 def rule_gh(model, rep):
     R = "C09.g-rounds-window"
     fn = model.func(UH, "HasRounds._generate_rounds")
@@ -432,6 +476,7 @@ def run(model, rep):
     rule_f(model, rep)
     rule_gh(model, rep)
     rule_zero_max(model, rep)
+    rule_falsy_option(model, rep)
     rule_chain(model, rep)
     from . import shared, c04
     c04.rule_d(model, shared.Renamed(rep, {"C04.d": "C09.g-generator-inside-window"}))
